@@ -43,7 +43,7 @@ theorem entry_guard_observer {p : Prog} {B pc ok k : Nat} {m : Mem} (hp : Placed
 word size and stack size) perform the same events and both end in the terminal loop. -/
 theorem core_unchecked_same (w S : Nat) (body : Core.S) (hw : 2 ≤ w)
     (hB1 : Core.funcLen true body + stdlibLength < 256 ^ w) (hB0 : Core.funcLen false body + stdlibLength < 256 ^ w)
-    (hSE : 5 * w + S * w + w < 256 ^ w) (hwf : Core.wfS [] body = true)
+    (hSE : 5 * w + S * w + w < 256 ^ w) (hwf : Core.wfS [] body = true) (hyl : Core.youLevel body = true)
     (fuel : Nat) (env' : Core.Env) (tr : List Ev) (res : Core.Res)
     (hex : Core.exec (256 ^ w) (8 * w) fuel (fun _ => 0) body = some (env', tr, res))
     (hnf : res ≠ .div0) (hroom : Core.pkS w w body ≤ (S + 1) * w) :
@@ -52,8 +52,8 @@ theorem core_unchecked_same (w S : Nat) (body : Core.S) (hw : 2 ≤ w)
         ⟨tntPc (Core.funcLen true body), m1⟩ ∧
       Exec (sphinx (Core.coreProg ⟨w, S, false⟩ body)) (Core.coreInit ⟨w, S, false⟩ body) (tr ++ [Ev.flag "win"])
         ⟨tntPc (Core.funcLen false body), m0⟩ := by
-  obtain ⟨m1, h1, _⟩ := Core.core_correct ⟨w, S, true⟩ body hw hB1 hSE hwf fuel env' tr res hex (fun h => absurd h hnf) hroom
-  obtain ⟨m0, h0, _⟩ := Core.core_correct ⟨w, S, false⟩ body hw hB0 hSE hwf fuel env' tr res hex (fun h => absurd h hnf) hroom
+  obtain ⟨m1, h1, _⟩ := Core.core_correct ⟨w, S, true⟩ body hw hB1 hSE hwf hyl fuel env' tr res hex (fun h => absurd h hnf) hroom
+  obtain ⟨m0, h0, _⟩ := Core.core_correct ⟨w, S, false⟩ body hw hB0 hSE hwf hyl fuel env' tr res hex (fun h => absurd h hnf) hroom
   have ht : Core.terminalEvs res = [Ev.flag "win"] := by cases res <;> first | rfl | exact absurd rfl hnf
   rw [ht] at h1 h0
   exact ⟨m1, m0, h1, h0⟩
